@@ -25,7 +25,28 @@ func (c *ConnTap) ForgeShortTo(sender Dir, dcid []byte, payload []byte) ([]byte,
 	if dcid == nil {
 		dcid = c.LastDCID[sender]
 	}
+	return c.forgeShortGen(sender, dcid, payload, 0)
+}
+
+// ForgeShortPhase is ForgeShort with the keys of the sender's key generation advanced by `advance`
+// key updates (the key phase bit follows).
+func (c *ConnTap) ForgeShortPhase(sender Dir, advance int, payload []byte) ([]byte, error) {
+	c.w.mu.Lock()
+	defer c.w.mu.Unlock()
+	if len(c.oneRTT[sender]) == 0 || c.LastDCID[sender] == nil {
+		return nil, errors.New("wiretap: no 1-RTT keys / connection ID observed for that sender yet")
+	}
+	return c.forgeShortGen(sender, c.LastDCID[sender], payload, advance)
+}
+
+func (c *ConnTap) forgeShortGen(sender Dir, dcid []byte, payload []byte, advance int) ([]byte, error) {
+	gens := c.oneRTT[sender]
 	g := len(gens) - 1
+	key := gens[g]
+	for i := 0; i < advance; i++ {
+		key = key.Next()
+		g++
+	}
 	c.forged[sender]++
 	pn := uint64(c.largest[sender][2]+50) + c.forged[sender] // successive forged packets get successive numbers
 	first := byte(0x40 | 0x03)                               // fixed bit, 4-byte packet number
@@ -37,7 +58,7 @@ func (c *ConnTap) ForgeShortTo(sender Dir, dcid []byte, payload []byte) ([]byte,
 	for len(payload) < 4 {
 		payload = append(payload, 0) // PADDING, so that a header protection sample exists
 	}
-	return gens[g].ProtectPacket(hdr, 4, pn, payload), nil
+	return key.ProtectPacket(hdr, 4, pn, payload), nil
 }
 
 // StatelessReset builds a stateless reset datagram for the given token (RFC 9000 §10.3).
